@@ -123,6 +123,9 @@ fn leaf() { time.sleep(0.06); done = done + 1; }
 fn mid() { time.sleep(0.02); spawn leaf(); time.sleep(0.02); }
 fn start() -> int { spawn mid(); 7 }
 fn get_done() -> int { done }
+let RG = 0..6;
+fn position(needle: str) -> int { let i = 0; for c in "abcdef" { if c == needle { return i; } i += 1; } 0 - 1 }
+fn below(n: int) -> int { let k = 0; for i in RG { if i >= n { return k; } k += 1; } k }
 fn fresh(k: str, n: int) -> int { let l: [int] = []; l.push(n); let o = new { ? }; o.set(k, n); let ob = new { a: 0, l: [1] }; ob.a += n; ob.l.push(n); l.len() * 1000 + o.keys().len() * 100 + ob.l.len() * 10 + ob.a }
 fn early(x: int) -> int { let y = 100 + if x > 0 { return x; } else { 1 }; y }
 fn nested_call(a: int, b: int) -> int { sub(b, a) * 2 + enc3(a, b, 0) }
@@ -141,7 +144,7 @@ fn main() {}
 
 
 def init_globals():
-    return {"counter": I(0), "total": I(0), "name": S("init"), "journal": S(""), "flag": B(False), "items": Lst([]), "done": I(0)}
+    return {"counter": I(0), "total": I(0), "name": S("init"), "journal": S(""), "flag": B(False), "items": Lst([]), "done": I(0), "RG": ("range", I(0), I(6), False)}
 
 
 def globals_sx(g):
@@ -292,6 +295,10 @@ FUNCS = {
     # the host call returns only when every core of the invocation has finished (`done` is already counted)
     # every evaluation of a literal is a fresh value: what one call put into its empty list / any-object / object literal
     # is not there in the next call (the literals live in the compiled program, shared by all invocations)
+    # loops over a string literal and over a global range left early by `return`: the next call starts at the beginning
+    # again (the literal lives in the compiled program, the range in the globals — both survive the call)
+    "position": (["letter"], "int", lambda a, g: ok(I("abcdef".find(a[0][1]))), ()),
+    "below": (["dig"], "int", lambda a, g: ok(I(min(a[0][1], 6))), ()),
     "fresh": (["str", "dig"], "int", lambda a, g: ok(I(1000 + 100 + 20 + a[1][1])), ()),
     "start": ([], "int", _start, ()),
     "get_done": ([], "int", lambda a, g: ok(g["done"]), ()),
@@ -327,6 +334,8 @@ def gen_arg(rng, ty, want_fail):
         return I(rng.choice([0, 1, 5, 99, 100, 150, -3, rng.randrange(0, 100)]))
     if ty == "str":
         return S(rng.choice(STRINGS))
+    if ty == "letter":
+        return S(rng.choice("abcdefz"))
     if ty == "bool":
         return B(rng.random() < 0.5)
     if ty == "float":
